@@ -123,6 +123,57 @@ func c05wsFragments(frames int) string {
 	return ""
 }
 
+// c05wsLoss: the websocket server sends one stanza and then the connection goes away (close frame, or the TCP
+// connection cut). The stanza must still come out, and then the decoder must get an error - not block for ever.
+func c05wsLoss(abrupt bool) string {
+	srv := httptest.NewServer(http.HandlerFunc(func(w http.ResponseWriter, r *http.Request) {
+		c, err := websocket.Accept(w, r, &websocket.AcceptOptions{Subprotocols: []string{"xmpp"}})
+		if err != nil {
+			return
+		}
+		ctx := context.Background()
+		c.Read(ctx) // the client's <open/>
+		c.Write(ctx, websocket.MessageText, []byte(`<open xmlns="urn:ietf:params:xml:ns:xmpp-framing" id="s1" version="1.0"/>`))
+		c.Write(ctx, websocket.MessageText, []byte(`<message xmlns="jabber:client" id="w1"><body>before the loss</body></message>`))
+		time.Sleep(50 * time.Millisecond)
+		if abrupt {
+			c.Close(websocket.StatusInternalError, "") // the library sends the frame and drops the connection at once
+		} else {
+			c.Close(websocket.StatusNormalClosure, "")
+		}
+	}))
+	defer srv.Close()
+	tr := &WebsocketTransport{Config: TransportConfiguration{Address: "ws" + strings.TrimPrefix(srv.URL, "http"), Domain: "localhost", ConnectTimeout: 5}}
+	if _, err := tr.Connect(); err != nil {
+		return "websocket connect: " + err.Error()
+	}
+	defer tr.Close()
+	got := make(chan string, 8)
+	go func() {
+		for {
+			p, err := stanza.NextPacket(tr.GetDecoder())
+			if err != nil {
+				got <- "error"
+				return
+			}
+			if x, ok := p.(stanza.Message); ok {
+				got <- x.Id
+			}
+		}
+	}()
+	for _, want := range []string{"w1", "error"} {
+		select {
+		case g := <-got:
+			if g != want {
+				return fmt.Sprintf("websocket connection lost after one stanza (abrupt=%v): got %q, want %s", abrupt, g, want)
+			}
+		case <-time.After(2500 * time.Millisecond):
+			return fmt.Sprintf("websocket connection lost after one stanza (abrupt=%v): the decoder never gets %s - reading blocks for ever, the loss is not noticed", abrupt, want)
+		}
+	}
+	return ""
+}
+
 type c05transport struct {
 	d  *xml.Decoder
 	mu sync.Mutex
@@ -320,6 +371,12 @@ func TestVerifReplay_C05(t *testing.T) {
 	for k := 3; k < 7; k++ { // each Read makes three log writes; the stream header is the first Read, the stanza the second
 		cases++
 		if m := c05loggerRead(k); m != "" {
+			report("%s", m)
+		}
+	}
+	for _, abrupt := range []bool{false, true} {
+		cases++
+		if m := c05wsLoss(abrupt); m != "" {
 			report("%s", m)
 		}
 	}
